@@ -352,10 +352,13 @@ func C03CustomFuncCall() {
 		}
 		return nil
 	}
-	fn := []string{"cat", "var", "nodename"}[zz.NondetChoice("fn", 3)]
+	fn := []string{"cat", "var", "nodename", "onlyctx"}[zz.NondetChoice("fn", 4)]
 	nargs := 2
 	if fn == "nodename" {
 		nargs = 1
+	}
+	if fn == "onlyctx" {
+		nargs = 0 // a function whose only parameter is the context (like the built-in now)
 	}
 	var args []*Decl
 	for i := 0; i < nargs; i++ {
